@@ -279,7 +279,10 @@ func runC18(em *vEmitter, r *vRng) {
 	for k := 0; k < nrel; k++ {
 		ms := mNewStore("c18r", r, 1)
 		ms.plant("root", true, 1, 1600000000, r.bytes(16), []byte("rootpw"), "")
-		st, err := NewStore(ms.cfgfile, "", "", "", "")
+		// every other reload with local hash upgrades on: the upgrade queue is then the update queue, and
+		// password changes are among the requests in flight
+		upgMode := []string{"", "local"}[k%2]
+		st, err := NewStore(ms.cfgfile, upgMode, "", "", "")
 		if err != nil {
 			panic(err)
 		}
@@ -345,6 +348,7 @@ func runC18(em *vEmitter, r *vRng) {
 					}
 					api.Authenticate("root", "rootpw")
 					api.Add(fmt.Sprintf("w%d-%d", c, i), "pw", false)
+					api.Update(fmt.Sprintf("w%d-%d", c, i), "pw2")
 				}
 			}(c)
 		}
